@@ -313,6 +313,7 @@ func (n *node) checkAlwaysSucceedsRecursion(t *Tree, visited map[*node]bool) boo
 type Tree struct {
 	Rules      map[string]*node
 	rulesCount map[string]uint
+	referenced map[string]bool /* the names an expression refers to */
 	node
 	inline, _switch, Ast bool
 	Strict               bool
@@ -342,6 +343,7 @@ func New(inline, _switch, noast bool) *Tree {
 	return &Tree{
 		Rules:      make(map[string]*node),
 		rulesCount: make(map[string]uint),
+		referenced: make(map[string]bool),
 		inline:     inline,
 		_switch:    _switch,
 		Ast:        !noast,
@@ -560,6 +562,7 @@ func (t *Tree) link(countsForRule *[TypeLast]uint, n *node, counts *[TypeLast]ui
 		*countsByRule = append(*countsByRule, &[TypeLast]uint{})
 	case TypeName:
 		name := n.String()
+		t.referenced[name] = true
 		if _, ok := t.Rules[name]; !ok {
 			emptyRule := &node{Type: TypeRule, string: name, id: t.RulesCount}
 			emptyRule.PushBack(&node{Type: TypeNil, string: "<nil>"})
@@ -1290,7 +1293,8 @@ func (t *Tree) Compile(file string, args []string, out io.Writer) (err error) {
 		}
 		expression := element.Front()
 		if expression.GetType() == TypeNil {
-			if element.String() != "PegText" {
+			/* the rule PegText that exists only because of a capture <...> is not a reference */
+			if t.referenced[element.String()] {
 				t.warn(fmt.Errorf("rule '%v' used but not defined", element))
 			}
 			_print("\n  nil,")
